@@ -206,9 +206,9 @@ func (sv *searchVars) searchList(s *slip.Scope, seq1, seq2 slip.List, depth int)
 	seq2 = seq2[sv.start2:sv.end2]
 	if len(seq1) == 0 {
 		if sv.fromEnd {
-			return slip.Fixnum(len(seq2))
+			return slip.Fixnum(sv.start2 + len(seq2))
 		}
-		return slip.Fixnum(0)
+		return slip.Fixnum(sv.start2)
 	}
 	if len(seq2) == 0 || len(seq2) < len(seq1) {
 		return nil
